@@ -4,5 +4,6 @@ CONSTANTS
   MaxFields = 3
   EmitMod = 997
   WarmInSeedOrder = FALSE
+  GenInSeedOrder = FALSE
 INVARIANTS PlainIsValidInv EduceIfDirectInv NoSpuriousEduceInv Functional Emit
 CHECK_DEADLOCK FALSE
